@@ -408,6 +408,19 @@ fn accepted_lim<T: BitRepr + Verify + serde::Serialize>(what: &str, c: &T, parse
         }
         return;
     }
+    // a write that fails half-way (user sink failing at its k-th operation) must not change what the
+    // next write of the component produces (the writers keep thread-local scratch buffers)
+    let poisoned = catch(|| {
+        let mut probe = crate::oracle::bits::MinimalSink::new();
+        if c.write(&mut probe).is_ok() && probe.ops >= 2 {
+            let k = (counted / 3) % probe.ops;
+            let mut failing = crate::oracle::bits::MinimalSink::failing_at(k);
+            let _ = c.write(&mut failing);
+        }
+    });
+    if let Err(p) = poisoned {
+        return out.viol(format!("{what}:write-panic(failing-sink):{}", normalise(&p.sig())), format!("write() into a failing user sink panicked: {} at {}", p.msg, p.loc));
+    }
     let written = catch(|| {
         let mut sink = ByteSink::new();
         c.write(&mut sink).map_err(|e| format!("{e:?}"))?;
@@ -1305,7 +1318,7 @@ pub fn run(ctx: &Ctx) {
         "cases = one call of a public constructor (Residual, QuantizedParameters, Constant, Verbatim, FixedLpc, Lpc, FrameHeader, Frame, StreamInfo + Result-returning setters, Stream, MetadataBlockData::new_unknown) with explicit arguments; \
          complete grids of boundary and inconsistent arguments (partition order / block size / warm-up / parameter count / vector lengths; parameter values 0..255; quotient and remainder classes incl. u32::MAX; coefficient count vs order, shift -128..127, precision 0..usize::MAX; widths 0..usize::MAX incl. 2^8+k wraps; block sizes 0, 1, 32767, 32768, 65536, 2^32+8; frame numbers and sample offsets at every UTF-8 length boundary up to 2^36 and beyond; subframes that disagree with the frame header in count, block size or width; StreamInfo::new / Stream::new over the product of rate x channels x width grids, each never-set, partially set and fully set through valid setter calls; metadata tags 0..255 and payloads around 2^24 bytes) \
          plus proptest-generated mostly-consistent arguments perturbed in one place; every grid point is evaluated (no stop at the first failure) and failures are grouped by signature. \
-         oracle: no panic in constructor or verify(); Ok(c) => verify() Ok, write() Ok without panic, bits written = count_bits(), the matching parser consumes exactly those bits and returns a component with identical field-by-field (serde/JSON) representation and identical re-serialisation (components above 2^24 bits are only counted through a counting sink); Err is always acceptable. \
+         oracle: no panic in constructor or verify(); Ok(c) => verify() Ok, write() Ok without panic, bits written = count_bits() (also right after a write of the same component into a user sink that failed half-way), the matching parser consumes exactly those bits and returns a component with identical field-by-field (serde/JSON) representation and identical re-serialisation (components above 2^24 bits are only counted through a counting sink); Err is always acceptable. \
          non-trivial = every case except a constant subframe or a residual with consistent shape and partition order 0; distinct by argument values",
     );
     ctx.assume("QuantizedParameters has no serialisation of its own: an accepted parameter set is judged by embedding it in Lpc::new with a matching warm-up, a valid residual and 16-bit samples");
